@@ -159,11 +159,17 @@ fn probe_kind(cfg: &Value, i: usize) -> PK {
     }
 }
 
+static EXECS: std::sync::atomic::AtomicUsize = std::sync::atomic::AtomicUsize::new(0);
+
 macro_rules! c09_runner {
     ($fname:ident, $G:ident, $T:ty, $mk:expr, $stable:expr) => {
         fn $fname(out: &mut Out, ex: &[Value]) {
             type GT = $G<NodeData<$T>, (), petgraph::Directed, u32>;
             let mut proc: Option<Processor<GT>> = None;
+            // both public entry points are driven: the `Processor::process` method and the free function
+            // `dasp_graph::process`, alternating within an execution and starting with either
+            let xn = EXECS.fetch_add(1, std::sync::atomic::Ordering::Relaxed);
+            let mut pc = 0usize;
             let mut g: GT = <GT>::default();
             let mut slots = 0usize;
             let mut live: Vec<usize> = Vec::new();
@@ -260,7 +266,17 @@ macro_rules! c09_runner {
                             r.overflow = false;
                         });
                         let p = proc.as_mut().unwrap();
-                        let (res, h, _) = measured(|| catch(|| p.process(&mut g, NodeIndex::new(o_ix))));
+                        let free = (pc + xn) % 2 == 1;
+                        pc += 1;
+                        let (res, h, _) = measured(|| {
+                            catch(|| {
+                                if free {
+                                    dasp_graph::process(p, &mut g, NodeIndex::new(o_ix))
+                                } else {
+                                    p.process(&mut g, NodeIndex::new(o_ix))
+                                }
+                            })
+                        });
                         let (log, mut exact, overflow) = R9.with(|r| {
                             let r = r.borrow();
                             (r.log.clone(), r.exact, r.overflow)
@@ -288,7 +304,7 @@ macro_rules! c09_runner {
                         let o = json!({"ok": res.is_some() && !overflow, "exact": exact, "order": order, "src": src, "cnt": cnt,
                                        "ptr": ptr, "nbs": nbs, "val": val, "bufs": bufs,
                                        "bound": g.node_bound(), "maxin": maxin, "edges": nedges});
-                        out.ev("process", json!({"out": o_ix}), if res.is_some() { r_unit() } else { r_panic() }, o, h);
+                        out.ev("process", json!({"out": o_ix, "via": if free { "fn" } else { "method" }}), if res.is_some() { r_unit() } else { r_panic() }, o, h);
                     }
                     "sources" | "sinks" => {
                         let mut items: Vec<usize> = Vec::with_capacity(4 * slots + 16);
